@@ -338,8 +338,6 @@ def ostream_transform(ex, body):
                 % (1 if minus else 0, v, x, v, e)).replace('yv_k + 0 <', 'yv_k <')
     body = rx.sub(rep, body)
     ex.rules_fired.append(('std::transform to ostream_iterator<uint16_t> -> emit loop', n[0]))
-    if n[0] != 3:
-        raise X.ExtractionBroken('encode_dispatch_data: %d transforms to an ostream_iterator (expected 3)' % n[0])
     return body
 
 
@@ -370,6 +368,8 @@ ENC_RULES = [
     X.range_for_by_ref('__typeof__(YV_ELEM)', 4),
     X.Rule('method.arity()', r'\bmethod\.arity\(\)', 'METHOD_ARITY(method)'),
     X.Rule('method->info->arity()', r'\bmethod->info->arity\(\)', 'method->info->arity_'),
+    X.Rule('method->arity()', r'\bmethod->arity\(\)', 'METHOD_ARITY(*method)'),
+    X.Rule('slots[i] / strides[i]', r'->(slots|strides)\[', r'->\1.data['),
     X.Rule('methods[i]', r'(?<![\w.])methods\[([^\]]+)\]', r'methods.data[\1]'),
     X.Rule('dispatch_table[i]', r'->dispatch_table\[([^\]]+)\]', r'->dispatch_table.data[\1]'),
     X.Rule('x.size()', r'\b([\w.>-]+)\.size\(\)', r'VEC_SIZE(\1)'),
